@@ -5,6 +5,6 @@ V="$(cd "$(dirname "$0")/.." && pwd)"
 cd "$V"
 for f in seeded/S*/patch.diff seeded/own/M*.diff seeded/own/T*.diff; do
     n=$(echo "$f" | sed 's#seeded/##; s#/patch.diff##; s#own/##; s#.diff##')
-    r=$(tools/try_patch.sh "$V/$f" --tier quick 2>&1 | grep -E "check: C16|harness error" | sed 's/.*distinct inputs, //')
+    r=$(tools/try_patch.sh "$V/$f" --tier quick 2>&1 | grep -E "check: C16|harness error|patch does not apply" | sed 's/.*distinct inputs, //')
     echo "$n: $r"
 done
